@@ -365,6 +365,9 @@ def enrol_extra(prop, tier, seed):
                     ops.append(dict(op="Enrol", flow=flow, backend=be, sw=sw, state="none", params=False, subst="none", rekey=True))
                     # the server's roots are replaced and the node registers again with the very same credentials
                     ops.append(dict(op="Enrol", flow=flow, backend=be, sw=sw, state="none", params=False, subst="none", rekey=False, reroot=True))
+            # short-lived roots rotated lazily: the node enrols after the current root has expired, before the next rotation call
+            if be == "inmem" or tier != "quick":
+                ops.append(dict(op="Enrol", flow=flow, backend=be, sw=False, state="none", params=False, subst="none", rekey=False, roots="curExpired"))
             # node-side substitutions (one storage configuration per flow x back end in quick, all in thorough)
             for sw in ((False,) if tier == "quick" else (False, True)):
                 for subst in ("wrongKey", "tamper", "wrongServerPub", "nonce32", "nonceToken", "swapBundles"):
@@ -381,7 +384,7 @@ def enrol_family():
         nontrivial=lambda p, l: l["res"] in ("issued", "subst"),
         mc=dict(quick=[("Enroll.tla", "MC_Enroll.cfg")], thorough=[("Enroll.tla", "MC_Enroll.cfg")]),
         gen=[], extra=enrol_extra,
-        rule={"*": "the full product flow (operator / token / wrapped / re-wrapped) x back end (in-memory, file, store-once) x storage wrapper x application state (x application params for the wrapper flows) of honest enrolments, each followed by ClientConfigs and a real protocol.Dial, plus six node-side substitutions of key or response fields per flow x back end, plus (wrapper flows) a second fetch of the same identity with a replaced encryption key; every observation judged by TLC against HonestViolations"},
+        rule={"*": "the full product flow (operator / token / wrapped / re-wrapped) x back end (in-memory, file, store-once) x storage wrapper x application state (x application params for the wrapper flows) of honest enrolments, each followed by ClientConfigs and a real protocol.Dial, plus six node-side substitutions of key or response fields per flow x back end, plus (wrapper flows) a second fetch of the same identity with a replaced encryption key, plus an enrolment made after the current root has expired and before the next rotation call (10 s roots); every observation judged by TLC against HonestViolations"},
         assumptions=["the enrolment itself is run through the public functions (not over the network); the dial afterwards goes through a real InterceptingListener over the same server storage",
                      "TLC checks completion (liveness under weak fairness) and the refuse-unless-bound rule of the node on the Enroll.tla model for every configuration"],
     )
